@@ -39,6 +39,10 @@ type GenQuery struct {
 	Vars   map[string]interface{} `json:"variables"`
 	Ops    []string               `json:"operations"`
 	Feats  map[string]int         `json:"features"`
+	// per operation: its own text and the fragments it (transitively) uses
+	OpTexts []string   `json:"operation_texts,omitempty"`
+	OpFrags [][]string `json:"operation_fragments,omitempty"`
+	OpVars  [][]string `json:"operation_variables,omitempty"`
 }
 
 type qGen struct {
@@ -324,8 +328,18 @@ func genQuery(r *rand.Rand, f *FedSpec, st *Store, k qKnobs) *GenQuery {
 		if mut {
 			g.feats["mutation"]++
 		}
-		ops = append(ops, g.operation(name, mut))
+		before := len(g.frags)
+		text := g.operation(name, mut)
+		ops = append(ops, text)
 		q.Ops = append(q.Ops, name)
+		q.OpTexts = append(q.OpTexts, text)
+		q.OpFrags = append(q.OpFrags, append([]string{}, g.frags[before:]...))
+		vn := []string{}
+		for n := range g.varDefs {
+			vn = append(vn, n)
+		}
+		sort.Strings(vn)
+		q.OpVars = append(q.OpVars, vn)
 	}
 	if nops == 1 && g.pct(30) {
 		// anonymous-style single operation still has a name; sometimes execute without naming it
